@@ -17,6 +17,12 @@
 import YashModel.Input.Model
 namespace YashModel.Input
 
+/-- the first `k` lines of an input (concatenated) and what follows them -/
+def takeLines : Nat → List Byte → List Byte × List Byte
+  | 0, inp => ([], inp)
+  | k + 1, inp =>
+    ((nextLine inp).1 ++ (takeLines k (nextLine inp).2).1, (takeLines k (nextLine inp).2).2)
+
 def isSuffix (a b : List Byte) : Bool := a.length ≤ b.length && b.drop (b.length - a.length) == a
 
 /-- offset `o` of `script` is the start of a line or the end of the script -/
